@@ -17,6 +17,17 @@ theorem SMap.get_set_same (m : SMap) (k : String) (v : SV) : (m.set k v).get k =
     · simp [h, SMap.get]
     · simp [h, SMap.get, ih]
 
+theorem SMap.set_set_same (m : SMap) (k : String) (v : SV) : (m.set k v).set k v = m.set k v := by
+  induction m with
+  | nil => simp [SMap.set]
+  | cons kv r ih =>
+    obtain ⟨k', v'⟩ := kv
+    unfold SMap.set
+    by_cases h : (k' == k) = true
+    · simp [h, SMap.set]
+    · simp only [h, Bool.false_eq_true, if_false]
+      simp [SMap.set, h, ih]
+
 theorem SMap.get_set_other (m : SMap) (k k2 : String) (v : SV) (hne : k2 ≠ k) :
     (m.set k v).get k2 = m.get k2 := by
   induction m with
